@@ -474,6 +474,26 @@ def extend_gate(F, R):
                 elif l[0] == "arg" and b.local_ty(l[1]) == "bool":
                     gates.add(("flag", l[1]))
     site = "%s @%s" % (b.path, b.loc())
+    # nothing else of the options takes part in the gate: extend() also builds every sub-tree, and there `self.depth` is the sub-tree's own depth, not the
+    # number of doublings of the trajectory - `mindepth` / `maxdepth` are the doubling loop's business (C01-R7 on the caller), not the tree builder's
+    extra = set()
+    for bb, t in b.calls_to(lambda c: path_ends(c["path"], "Hamiltonian::is_turning")):
+        for (o, l, r, _s) in Rl.edge_relations(b, bb):
+            for side in (l, r):
+                if side is None:
+                    continue
+                for x in vt_walk(side):
+                    if x[0] == "field" and str(x[2]) != "check_turning":
+                        root = x[1]
+                        while root[0] in ("deref", "ref"):
+                            root = root[1]
+                        if root[0] == "arg" and "NutsOptions" in b.local_ty(root[1]):
+                            extra.add(str(x[2]))
+    if extra:
+        R.bad("C01-R7", b.path + ":gate-options-only", site, "inside extend() the U-turn criterion also depends on options.%s: in a sub-tree the tree's own depth is compared, so "
+              "balanced sub-trajectories below that depth are never tested and doubling stops later than the criterion says" % "/".join(sorted(extra)))
+    elif gates:
+        R.ok("C01-R7", b.path + ":gate-options-only", site, "no option other than check_turning takes part in the conditions that lead to is_turning()")
     if len(gates) != 1:
         if gates:
             R.bad("C01-R7", b.path + ":gate", site, "the U-turn criterion in extend() is gated by several conditions: %s" % sorted(gates))
